@@ -240,7 +240,7 @@ def check(ctx, world):
                     if rec[0] == "opaque-call" and rec[1].qual == lq and rec[3][2].endswith(qual):
                         seen += 1
                         pt, n = rec[2][0], rec[2][1]
-                        okp = pt == o.state.heap[recv.oid].get("XYTZ") or pt in o.state.heap[recv.oid].values()
+                        okp = pt in o.state.heap[recv.oid].values()
                         conds = {(t, p) for (t, p, _) in o.state.pc}
                         if isinstance(n, Const):
                             okn = isinstance(n.v, int) and 1 <= n.v < L
@@ -265,7 +265,9 @@ def check(ctx, world):
     recv = gm.ed_module_of(world, ev)[1]
     st = world.static.fork()
     other = e2.new_obj(base_cls, st)
-    st.heap[other.oid]["XYTZ"] = TupleV([Sym("X2", "int"), Sym("Y2", "int"), Sym("Z2", "int"), Sym("T2", "int")])
+    cfield = [k for k, v in st.heap[recv.oid].items() if isinstance(v, TupleV) and len(v.items) == 4]
+    ctx.require(len(cfield) == 1, "anchor vanished: coordinate field of the Ed25519 element")
+    st.heap[other.oid][cfield[0]] = TupleV([Sym("X2", "int"), Sym("Y2", "int"), Sym("Z2", "int"), Sym("T2", "int")])
     outs = e2.run_method(recv, "add", [other], st=st)
     used = set()
     for o in outs:
